@@ -152,7 +152,7 @@ func (r *vScriptRecv) Receive(c *Context) {
 	}
 	switch o {
 	case "p":
-		panic("scripted panic")
+		panic(vPanicValue{[]string{"scripted panic"}}) // a panic value of an UNCOMPARABLE type (== on two of them panics at run time)
 	case "i":
 		panic(&InternalError{From: "verif", Err: fmt.Errorf("scripted internal error")})
 	}
@@ -422,6 +422,9 @@ func TestVerifProc(t *testing.T) {
 // stream "mwopts" (C13): the chain an actor runs is the chain given at ITS spawn — options built
 // with WithMiddleware from a shared slice (with spare capacity) for several actors.
 // ---------------------------------------------------------------------------------------------
+
+// vPanicValue is what the scripted receiver panics with: a struct with a slice field, so it cannot be compared.
+type vPanicValue struct{ why []string }
 
 type vMwSpawn struct {
 	fn   func(*Context)
